@@ -329,18 +329,34 @@ pub fn cli_conformance_src(
     interpreted: bool,
     horizon: usize,
 ) -> (crate::refprog::RefRun, crate::cli::CliOut, Option<(String, String, String)>) {
-    use crate::cli::*;
-    use crate::refprog as rp;
-    let flat = rp::flatten(prog, macro_bodies);
-    let rr = rp::run(&flat, &rp::RunOpts { stdin: stdin_lines.to_vec(), interpreted, horizon });
     let mut stdin = String::new();
     for l in stdin_lines {
         stdin.push_str(l);
         stdin.push('\n');
     }
+    cli_conformance_raw(src, prog, macro_bodies, stdin_lines, &stdin, interpreted, horizon, false, false)
+}
+
+/// Most general form: `stdin_lines` is what the reference sees (lines without terminator), `stdin_raw`
+/// the bytes written to the binary's stdin before it is closed.
+pub fn cli_conformance_raw(
+    src: &str,
+    prog: &Program,
+    macro_bodies: &std::collections::HashMap<String, Vec<Item>>,
+    stdin_lines: &[String],
+    stdin_raw: &str,
+    interpreted: bool,
+    horizon: usize,
+    dos_0a: bool,
+    rep_iter: bool,
+) -> (crate::refprog::RefRun, crate::cli::CliOut, Option<(String, String, String)>) {
+    use crate::cli::*;
+    use crate::refprog as rp;
+    let flat = rp::flatten(prog, macro_bodies);
+    let rr = rp::run(&flat, &rp::RunOpts { stdin: stdin_lines.to_vec(), interpreted, horizon, dos_0a, rep_prompt_per_iteration: rep_iter });
     let mut o = CliOpts::default();
     o.interpreted = interpreted;
-    let out = run_cli(src, &stdin, &o);
+    let out = run_cli(src, stdin_raw, &o);
     if rr.stop == rp::Stop::Horizon {
         // diverging program: not part of the explored space
         return (rr, out, None);
@@ -372,10 +388,22 @@ pub fn report_cli(rep: &Reporter, site: &str, res: Option<(String, String, Strin
             field,
             vars: vec![],
             got_val: None,
-            expected,
-            got,
-            case: json!({"src": src, "stdin": stdin, "interpreted": interpreted, "stdout": out.out(), "note": extra}),
+            expected: clip_text(&expected, 2000),
+            got: clip_text(&got, 2000),
+            case: json!({"src": src, "stdin": stdin, "interpreted": interpreted, "stdout": clip_text(&out.out(), 8000), "note": extra}),
             weight: (src.len() + stdin.len()) as u64,
         });
+    }
+}
+
+pub fn clip_text(s: &str, n: usize) -> String {
+    if s.len() <= n {
+        s.to_string()
+    } else {
+        let mut e = n;
+        while !s.is_char_boundary(e) {
+            e -= 1;
+        }
+        format!("{}… ({} bytes in all)", &s[..e], s.len())
     }
 }
